@@ -384,7 +384,7 @@ class Check(PropertyCheck):
     prop = "C31"
     design_ref = "§5 C31"
     level_text = (
-        "23 Lean theorems, each over ALL call histories (any interleaving of encoding.decode/encode on arbitrary bodies and "
+        "41 Lean theorems, each over ALL call histories (any interleaving of encoding.decode/encode on arbitrary bodies and "
         "of set_content/get_content/Message.decode/Message.encode/header mutations on two messages sharing the one cache "
         "entry), by induction on the op list via `stepWith_cache` (what one op can do to the cache) and the invariant "
         "'the entry (e,c,err,d) has a compressed coding and the uncached decoder maps e to d'. "
@@ -410,9 +410,40 @@ class Check(PropertyCheck):
         "Content-Length. Tie: differential replay of small-scope-exhaustive, templated and random histories; after every op the "
         "result, the cache tuple, both message states and the predicted uncached codec call (name, errors, data) are compared; "
         "spies assert the real code makes at most that one uncached call; the values of `last` / `rawof` re-assignments are "
-        "resolved by the model itself; name tables are regenerated from the live module every run.")
+        "resolved by the model itself; name tables are regenerated from the live module every run. Round 5 (deepening): "
+        "(a) every history theorem is also proved from ANY start state satisfying the invariant instead of an empty cache "
+        "(inv_of_empty, inv_preserved, decode_transparent_inv, encode_semantically_transparent_inv, get_content_transparent_inv, "
+        "set_get_content_inv, set_content_idempotent_inv, decode_idempotent_inv, raw_decodes_to_content_lenient_inv, "
+        "decode_encode_preserves_inv; inv_needed_counterexample: a false cache entry breaks transparency, so the invariant cannot "
+        "be dropped); (b) the coding-kind hypothesis is removed from the idempotence theorems (set_content_idempotent_any_coding, "
+        "decode_idempotent_any_coding: any header, bytes-/text-codecs, TypeError outcomes included); (c) mitmproxy's OWN decoder "
+        "functions identity/decode_gzip/decode_deflate/decode_brotli/decode_zstd are transcribed (`ownDecodeWith`: the `if not "
+        "content: return b\"\"` shortcut, decode_deflate's raw-deflate fallback, library error -> ValueError) and tied by the driver "
+        "op `own` to the real functions on bodies of every shape; `ofLib` builds the Codecs parameter from a library with TWO laws "
+        "(round trip; empty in => empty out), so the former law fields dec_empty / dec_shape / roundtrip / ref_enc / ref_dec become "
+        "theorems (own_decoders_accept_empty, own_decoders_extend_library, own_deflate_fallback) and "
+        "raw_decodes_to_content_counterexample_own_shortcut shows F-C31a arises from mitmproxy's own shortcut with a perfectly "
+        "strict library; (d) `contentOf` is tied: after every op the model's cache-free reading of BOTH messages (contentOf_eq_with) "
+        "is compared with the real code's strict read-back in its real cache state. "
+        "Clause table (statement clause -> theorem / oracle tag): assign+read back -> set_get_content(_inv), set_set_last_wins / "
+        "[assign][readback][unknown]; raw decodes with independent decoders -> RawDecodesToContent FALSE (F-C31a): "
+        "raw_decodes_to_content_lenient/_partial/_partial_hit/_counterexample(_own_shortcut) / [raw-ref]; Content-Length without TE -> "
+        "content_length_eq_raw_len_without_TE, content_length_invariant, trailers_irrelevant / [content-length]; decode then re-encode "
+        "-> decode_encode_preserves(_interleaved,_inv), decode_idempotent(_any_coding), encode_after_encode / [decode][decode-encode]; "
+        "no result depends on earlier calls -> decode_transparent, get_content_transparent, get_content_history_independent, "
+        "encode_semantically_transparent, message_ops_isolated (+ the `content` read-back tie) / [hist][hist-enc][hist-raw]; quantifier "
+        "(empty bodies, unknown / mixed-case codings, invalid data, arbitrary call sequences) -> own_decoders_accept_empty, "
+        "unknown_coding_removed, asciiLower in every statement, verr outcomes in decode_transparent, forall ops / generator pools.")
     level_note = (
-        "assumed, not proved: the compression libraries are the parameter `Codecs` of every theorem (laws as structure "
+        "assumed, not proved: the compression LIBRARIES. Since round 5 two forms: the abstract `Codecs` parameter (laws below) "
+        "kept for all theorems, and its instance `ofLib L P` where only `Lib` (zlib/brotli/zstd: total compress, the decoder call "
+        "the wrapper makes, raw inflation; laws: decompress(compress d) = d, decompress([]) = d => d = []) and `PyReg` (the codecs "
+        "registry; law: unknown names fail) are assumed and everything mitmproxy adds on top (empty shortcut, raw-deflate fallback, "
+        "error mapping) is transcribed and tied. Lenient branches: (i) empty body -> b'' in all four decode_* (own code, modelled, "
+        "tied); (ii) decode_deflate falls back to raw deflate (own code, modelled, tied); (iii) decode_gzip uses "
+        "zlib.decompressobj(47), which accepts zlib-wrapped, truncated and garbage-trailed streams (LIBRARY lenience: inside "
+        "Lib.decompress, not modelled further). "
+        "Abstract form: the compression libraries are the parameter `Codecs` of every theorem (laws as structure "
         "fields: compressed codings always encode, the decoder inverts the encoder, decoding the empty body gives the empty "
         "body, a decoder yields bytes or ValueError, unknown names fail both ways, the strict reference decoder accepts encoder "
         "output and the lenient decoder extends it). The laws are satisfiable (instance `toy`) and sampled every run by the "
@@ -1031,6 +1062,13 @@ class Check(PropertyCheck):
             elif o == "cl": lines.append(f"cl {op['i']} {'none' if op['n'] is None else op['n']}")
             elif o == "tr": lines.append(f"tr {op['i']} {TRAILERS.index(op['t'])}")
             elif o == "ver": lines.append(f"ver {op['i']} {VERSIONS.index(op['v'])}")
+            # after every op: the model's cache-free reading `contentOf` of BOTH messages (from the model's own message
+            # state + the uncached decoder result) — compared with the real code's strict read-back in its real cache state
+            for i in (0, 1):
+                raw, ce = _raw_of(r["after"][i]), _ce_of(r["after"][i])
+                nd = None
+                if raw is not None and ce and ce.lower() not in IDENT_DEC: nd = ("D", ce.lower(), "strict", raw)
+                lines.append(f"content {i} 1 {_fresh(nd)}")
         return lines
 
     def model_obs(self, case, replies):
@@ -1038,7 +1076,10 @@ class Check(PropertyCheck):
 
     def impl_view(self, case, obs):
         if "own" in case: return [obs["own"]]
-        return ["ok"] + [" ".join([r["res"], r["need"], r["cache"], r["after"][0], r["after"][1]]) for r in obs["ops"]]
+        out = ["ok"]
+        for r in obs["ops"]:
+            out += [" ".join([r["res"], r["need"], r["cache"], r["after"][0], r["after"][1]]), r["rb"][0], r["rb"][1]]
+        return out
 
     # ---------------- evidence ----------------
     def classify(self, case, obs):
